@@ -56,6 +56,34 @@ def run_unit(unit, repo, tier, vacuity=True):
             raise Undecided("unit %s: trusted constructs not on the whitelist: %s" % (unit, extra))
     js, diags, wall, cmd, proc = vr.run_verus(src, rlimit=60 if tier == "thorough" else 40)
     funcs, errors, hard, vres = vr.analyse(js, diags, linemap, unit)
+    undecided_fns = {}
+    if hard and all(h.get("rlimit") for h in hard):
+        # resource limit hit: a function that ALSO has a definite failure is decided (failed); the others
+        # are retried once with a much larger limit and a single-error search
+        for e in errors:
+            e["fn"] = vr.enclosing_fn(text, e["line"])
+        definite = set(e["fn"] for e in errors)
+        pending = set(vr.enclosing_fn(text, h["line"]) for h in hard) - definite
+        if pending:
+            js2, diags2, wall2, cmd2, proc2 = vr.run_verus(src, rlimit=400, multiple_errors=1, timeout=3000)
+            funcs2, errors2, hard2, vres2 = vr.analyse(js2, diags2, linemap, unit)
+            wall += wall2
+            if hard2 and not all(h.get("rlimit") for h in hard2):
+                raise Undecided("unit %s: verus front-end error: %s" % (unit, hard2[0]["message"]))
+            for e in errors2:
+                e["fn"] = vr.enclosing_fn(text, e["line"])
+            have = set((e["fn"], e["message"], e["text"]) for e in errors)
+            for e in errors2:
+                if e["fn"] in pending and (e["fn"], e["message"], e["text"]) not in have:
+                    errors.append(e)
+            for h in hard2:
+                fn = vr.enclosing_fn(text, h["line"])
+                if fn in pending and fn not in set(e["fn"] for e in errors2):
+                    undecided_fns[fn] = h["message"]
+            for n_, f_ in funcs2.items():
+                if n_.split("::")[-1] in pending and n_ in funcs:
+                    funcs[n_]["success"] = f_["success"] and n_.split("::")[-1] not in undecided_fns
+        hard = []
     if hard:
         raise Undecided("unit %s: verus front-end/resource error: %s" % (unit, hard[0]["message"] + " @ " + hard[0]["text"][:200]))
     if not vres or (not funcs):
@@ -64,7 +92,7 @@ def run_unit(unit, repo, tier, vacuity=True):
         e["fn"] = vr.enclosing_fn(text, e["line"])
     res = {"unit": unit, "src": src, "funcs": funcs, "errors": errors, "wall_s": wall, "cmd": cmd,
            "verus_verified": vres.get("verified"), "verus_errors": vres.get("errors"), "trusted": trusted,
-           "log": log, "extracted": extracted, "text": text, "vacuity": None,
+           "log": log, "extracted": extracted, "text": text, "vacuity": None, "undecided_fns": undecided_fns,
            "smt_ms": js.get("times-ms", {}).get("smt", {}).get("smt-run"), "verus_version": js.get("verus", {}).get("version")}
     if vacuity:
         vtext, _, _, _ = vr.build_unit(unit, repo, ROOT, vacuity=True)
@@ -162,6 +190,9 @@ def _check(prop, tier, seed, repo, vacuity=True, update_baseline=False):
                     samples.append({"unit": unit, "obligation": name, "mode": f["mode"], "smt_time_ms": round(f["time_us"] / 1000, 1), "result": "discharged by Verus/Z3"})
                 continue
             # failed function: each error is an obligation
+            if short in r.get("undecided_fns", {}) and not errs:
+                undecided.append("unit %s: obligation %s: %s (even at rlimit 400)" % (unit, name, r["undecided_fns"][short]))
+                continue
             if not errs:
                 errs = [{"message": "function failed (no diagnostic captured)", "text": "", "rendered": "", "line": 0, "fn": short}]
             unlisted = []
